@@ -35,7 +35,11 @@ type command struct {
 	search bool
 	// This counter indicates the number of results that still need to be produced.
 	ctr *int64
-	// This channel is used to signal that the counter was modified
+	// This channel is used to signal that the command has been executed completely.
+	//
+	// A worker sends exactly one notification per command, after all of the
+	// command's writes to results, and the caller receives exactly one
+	// notification per command it has sent before returning.
 	ctrChanged chan<- struct{}
 	// This is the index we evaluate our function at, when not searching
 	i int
@@ -48,7 +52,7 @@ type command struct {
 //
 // We need to keep searching for successful queries of f while *ctr > 0.
 // When we find a successful result, we decrement *ctr.
-func workerSearch(results []interface{}, ctrChanged chan<- struct{}, f func(int) interface{}, ctr *int64) {
+func workerSearch(results []interface{}, f func(int) interface{}, ctr *int64) {
 	for atomic.LoadInt64(ctr) > 0 {
 		res := f(0)
 		if res == nil {
@@ -58,7 +62,6 @@ func workerSearch(results []interface{}, ctrChanged chan<- struct{}, f func(int)
 		if i >= 0 {
 			results[i] = res
 		}
-		ctrChanged <- struct{}{}
 	}
 }
 
@@ -66,12 +69,12 @@ func workerSearch(results []interface{}, ctrChanged chan<- struct{}, f func(int)
 func worker(commands <-chan command) {
 	for c := range commands {
 		if c.search {
-			workerSearch(c.results, c.ctrChanged, c.f, c.ctr)
+			workerSearch(c.results, c.f, c.ctr)
 		} else {
 			c.results[c.i] = c.f(c.i)
 			atomic.AddInt64(c.ctr, -1)
-			c.ctrChanged <- struct{}{}
 		}
+		c.ctrChanged <- struct{}{}
 	}
 }
 
@@ -144,14 +147,16 @@ func (p *Pool) Search(count int, f func() interface{}) []interface{} {
 		results:    results,
 	}
 	cmdI := 0
+	done := 0
 	for cmdI < p.workerCount {
 		select {
 		case p.commands <- cmd:
 			cmdI++
 		case <-ctrChanged:
+			done++
 		}
 	}
-	for atomic.LoadInt64(&ctr) > 0 {
+	for ; done < p.workerCount; done++ {
 		<-ctrChanged
 	}
 
@@ -171,6 +176,7 @@ func (p *Pool) Parallelize(count int, f func(int) interface{}) []interface{} {
 	ctr := int64(count)
 	ctrChanged := make(chan struct{})
 	cmdI := 0
+	done := 0
 	for cmdI < count {
 		cmd := command{
 			search:     false,
@@ -187,9 +193,10 @@ func (p *Pool) Parallelize(count int, f func(int) interface{}) []interface{} {
 		case p.commands <- cmd:
 			cmdI++
 		case <-ctrChanged:
+			done++
 		}
 	}
-	for atomic.LoadInt64(&ctr) > 0 {
+	for ; done < count; done++ {
 		<-ctrChanged
 	}
 
